@@ -18,6 +18,7 @@
 import errno
 import json
 import os
+import re
 import sqlite3
 import sys
 from contextlib import suppress
@@ -277,18 +278,18 @@ class CylcWorkflowDBChecker:
         # (Outputs and flow_nums are serialised).
         if task:
             if '*' in task:
-                # Replace Cylc ID wildcard with Sqlite query wildcard.
-                task = task.replace('*', '%')
-                stmt_wheres.append("name like ?")
+                # Sqlite GLOB: "*" matches any sequence, case-sensitive.
+                task = _glob_escape(task)
+                stmt_wheres.append("name GLOB ?")
             else:
                 stmt_wheres.append("name==?")
             stmt_args.append(task)
 
         if cycle:
             if '*' in cycle:
-                # Replace Cylc ID wildcard with Sqlite query wildcard.
-                cycle = cycle.replace('*', '%')
-                stmt_wheres.append("cycle like ?")
+                # Sqlite GLOB: "*" matches any sequence, case-sensitive.
+                cycle = _glob_escape(cycle)
+                stmt_wheres.append("cycle GLOB ?")
             else:
                 stmt_wheres.append("cycle==?")
             stmt_args.append(cycle)
@@ -372,6 +373,21 @@ class CylcWorkflowDBChecker:
                 or TASK_OUTPUT_FAILED in outputs
             )
         )
+
+
+def _glob_escape(pattern: str) -> str:
+    """Make "*" the only wildcard in an Sqlite GLOB pattern.
+
+    GLOB also treats "?" and "[...]" specially; wrap them in a character
+    class so that they only match themselves.
+
+    Examples:
+        >>> _glob_escape('foo_*')
+        'foo_*'
+        >>> _glob_escape('a?[b]*')
+        'a[?][[]b]*'
+    """
+    return re.sub(r'([?\[])', r'[\1]', pattern)
 
 
 def check_polling_config(selector, is_trigger, is_message):
